@@ -52,21 +52,21 @@ RBN = "_sync,_sys,usr,u2,$document,$document.revid"
 ROW = ["row", "row.v", "row.cas", "row.exp", "row.json", "row.x", "row.tomb", "row.rev"]
 
 PROPS = {
-    "C01": dict(modules=["Rosmar.Properties.C01"], slices=[KV, KVD, MULTI], proj=V.proj_all,
+    "C01": dict(modules=["Rosmar.Properties.C01", "Rosmar.Gen.TieSqlAdd", "Rosmar.Gen.TieSqlSet", "Rosmar.Gen.TieSqlWcas", "Rosmar.Gen.TieSqlRemove", "Rosmar.Gen.TieSqlTouch", "Rosmar.Gen.TieSqlXattr"], slices=[KV, KVD, MULTI], proj=V.proj_all,
                 what="every read after every operation (raw row + every public read), every result"),
-    "C02": dict(modules=["Rosmar.Properties.C02"], slices=[KV, KVD, SUBDOC],
+    "C02": dict(modules=["Rosmar.Properties.C02", "Rosmar.Gen.TieSqlWcas", "Rosmar.Gen.TieSqlRemove", "Rosmar.Gen.TieSqlXattr"], slices=[KV, KVD, SUBDOC],
                 proj=P(rb=ROW, results=True, ops={"wcas", "remove", "wwx", "wtx", "updx", "rmx", "uxdb", "swm", "dwm", "update", "wuwx"}),
                 what="results of CAS-conditional writes and the row before/after"),
     "C04": dict(modules=["Rosmar.Properties.C04", "Rosmar.Gen.TiePure"], slices=[CLOCK, CLOCKD, KV, COLLS, COLLSD],
                 proj=P(rb=["row", "row.cas"], results=True, ops={"draw", "restart", "lastcas", "wcas", "remove", "touch", "setx", "updx", "wwx", "wtx", "wrx", "uxdb", "update", "wuwx"}),
                 what="every CAS handed out under adversarial clock scripts, draws by other buckets, close/reopen with a forgetful clock"),
-    "C05": dict(modules=["Rosmar.Properties.C05"], slices=[KV, FEEDS, MULTI],
+    "C05": dict(modules=["Rosmar.Properties.C05", "Rosmar.Gen.TieSqlAdd", "Rosmar.Gen.TieSqlSet", "Rosmar.Gen.TieSqlWcas", "Rosmar.Gen.TieSqlRemove", "Rosmar.Gen.TieSqlXattr"], slices=[KV, FEEDS, MULTI],
                 proj=P(rb=["row", "row.v", "row.tomb", "row.x", "row.exp", "gr", "ex", "gwx"], ev=["k", "op", "cas"], results=True),
                 what="tombstone flag, body, xattrs, expiry, reads, feed opcodes"),
-    "C06": dict(modules=["Rosmar.Properties.C06"], slices=[KV, KVD],
+    "C06": dict(modules=["Rosmar.Properties.C06", "Rosmar.Gen.TieSqlAdd", "Rosmar.Gen.TieSqlWcas", "Rosmar.Gen.TieSqlXattr"], slices=[KV, KVD],
                 proj=P(rb=ROW, results=True, ops={"add", "wcas", "wrx", "wwx"}),
                 what="results of insert-style writes and the row before/after"),
-    "C07": dict(modules=["Rosmar.Properties.C07"], slices=[KV, KVD],
+    "C07": dict(modules=["Rosmar.Properties.C07", "Rosmar.Gen.TieSqlSet", "Rosmar.Gen.TieSqlWcas", "Rosmar.Gen.TieSqlRemove", "Rosmar.Gen.TieSqlXattr"], slices=[KV, KVD],
                 proj=P(rb=["row", "row.v", "row.cas", "row.exp", "row.x", "gwx", "gx"], results=True),
                 what="body, xattrs, expiry, CAS after every xattr / body write; macro expansions"),
     "C08": dict(modules=["Rosmar.Properties.C08", "Rosmar.Properties.Sched"], slices=[FEEDS, FEEDSD, MULTI], proj=P(rb=ROW, ev="*", results=True),
@@ -79,7 +79,7 @@ PROPS = {
                 what="on-disk histories with close/reopen in-process (restart) compared with the model; and fault enumeration: a child process "
                      "is SIGKILLed at instrumentation points (txn.begin, cas.afterwrite, txn.precommit, txn.committed, post.before, ...) and a "
                      "fresh process reopens and reads everything back"),
-    "C11": dict(modules=["Rosmar.Properties.C11", "Rosmar.Gen.TieFacts"], slices=[MULTI, MULTID, COLLS, COLLSD, VIEWM], proj=V.proj_all, isolation_search=True,
+    "C11": dict(modules=["Rosmar.Properties.C11", "Rosmar.Gen.TieFacts", "Rosmar.Gen.TieSqlBase"], slices=[MULTI, MULTID, COLLS, COLLSD, VIEWM], proj=V.proj_all, isolation_search=True,
                 what="every key of every collection re-read after every operation on any collection"),
     "C03": dict(modules=["Rosmar.Properties.C03"], slices=[KV, KVD], proj=V.proj_all,
                 what="forced interleavings of compound calls (Update, WriteUpdateWithXattrs, WriteSubDoc, Incr) with other writers through the "
@@ -87,7 +87,7 @@ PROPS = {
     "C13": dict(modules=["Rosmar.Properties.C13"], slices=[REG], proj=V.proj_all,
                 what="registry scripts over 2 names x (memory + 2 directories) x 4 handles: open modes, close, repeated close, CloseAndDelete, "
                      "data probes; cluster.bucketCount / GetBucketNames / directories compared after every step; forced open/close races"),
-    "C14": dict(modules=["Rosmar.Properties.C14", "Rosmar.Gen.TiePure"], slices=[EXPIRY, EXPIRYD, MULTI],
+    "C14": dict(modules=["Rosmar.Properties.C14", "Rosmar.Gen.TiePure", "Rosmar.Gen.TieSqlTouch", "Rosmar.Gen.TieSqlSet"], slices=[EXPIRY, EXPIRYD, MULTI],
                 proj=P(rb=["row", "row.v", "row.exp", "row.tomb", "ge"], ev=["k", "op", "exp"], results=True,
                        ops={"expstate", "fire", "restart", "touch", "gat"}),
                 what="stored expiries, the expiry manager's next-fire time after every operation, sweeps at scripted times, reopen"),
@@ -121,7 +121,7 @@ PROPS = {
                      "write), a feed start, a feed delivery and the expiry-timer callback, on both bucket kinds, each in its own child process "
                      "(panic, hang, leaked feed goroutine, unrelated bucket still usable), compared with the shutdown model's verdict; the "
                      "lock-order graph regenerated from the source; sequential lifecycle histories"),
-    "C17": dict(modules=["Rosmar.Properties.C17"], slices=[KV, FEEDS, MULTI],
+    "C17": dict(modules=["Rosmar.Properties.C17", "Rosmar.Gen.TieSqlAdd", "Rosmar.Gen.TieSqlSet", "Rosmar.Gen.TieSqlWcas", "Rosmar.Gen.TieSqlRemove", "Rosmar.Gen.TieSqlTouch", "Rosmar.Gen.TieSqlXattr"], slices=[KV, FEEDS, MULTI],
                 proj=P(rb=["row", "row.rev", "gwx"], ev=["k", "rev", "cas"], results=False),
                 what="revSeqNo in the row, $document / $document.revid, live and backfill RevNo"),
 }
@@ -309,7 +309,8 @@ def decide(pid, tier, seed, t0):
     if gen_problems:
         used = {m for mod in cfg["modules"] for m in V.module_files(mod)}
         mine = [g for g in gen_problems if ("gen: pure:" in g and "Rosmar.Gen.Pure" in used) or ("gen: facts:" in g and "Rosmar.Gen.Facts" in used)
-                or ("gen: pure:" not in g and "gen: facts:" not in g and any(m.startswith("Rosmar.Gen") for m in used))]
+                or ("gen: sql:" in g and "Rosmar.Gen.Sql" in used)
+                or ("gen: pure:" not in g and "gen: facts:" not in g and "gen: sql:" not in g and any(m.startswith("Rosmar.Gen") for m in used))]
         broken = list(broken) + mine
     for mod in cfg.get("note_modules", []):
         # theorems documenting known findings: expected to stop holding when the code is repaired - a note, never a violation
